@@ -2890,4 +2890,86 @@ theorem createDatabase_zero_option_counterexample :
      | _ => false) = true) := by
   refine ⟨⟨?_, ?_, ?_⟩, ⟨?_, ?_, ?_⟩⟩ <;> decide +kernel
 
+/-! ### CREATE SUBSCRIPTION -/
+
+/-- What CREATE SUBSCRIPTION prints after its keywords: `<name> ON <db>.<rp> DESTINATIONS <mode> '<d1>', '<d2>', …`
+(`mode` is the keyword `ALL` or `ANY`). -/
+def createSubscriptionText (name db rp : Str) (mode : Token) (v : Str) (vs : List Str) : Str :=
+  ' ' :: (qi name ++ ' ' :: (Token.ON.str ++ ' ' :: (qi db ++ '.' :: (qi rp ++ ' ' :: (Token.DESTINATIONS.str ++
+    ' ' :: (mode.str ++ ' ' :: (quoteString v ++ moreStrings vs)))))))
+
+theorem createSubscription_print (name db rp : Str) (mode : Token) (v : Str) (vs : List Str) :
+    (Statement.createSubscription name db rp (v :: vs) mode.str).print =
+      tx "CREATE SUBSCRIPTION" ++ createSubscriptionText name db rp mode v vs := by
+  have p1 : (Statement.createSubscription name db rp (v :: vs) mode.str).print =
+      tx "CREATE SUBSCRIPTION " ++ qi name ++ tx " ON " ++ qi db ++ tx "." ++ qi rp ++ tx " DESTINATIONS " ++ mode.str ++
+        tx " " ++ joinWith (tx ", ") ((v :: vs).map quoteString) := rfl
+  have e1 : tx "CREATE SUBSCRIPTION " = tx "CREATE SUBSCRIPTION" ++ [' '] := by decide +kernel
+  have e2 : tx "." = ['.'] := by decide +kernel
+  have e3 : tx " DESTINATIONS " = ' ' :: (Token.DESTINATIONS.str ++ [' ']) := by decide +kernel
+  have e4 : tx " " = [' '] := by decide +kernel
+  rw [p1, joinStrings, e1, e2, e3, e4, tx_on]
+  simp only [createSubscriptionText, List.append_assoc, List.cons_append, List.nil_append]
+
+/-- **Print → parse, CREATE SUBSCRIPTION name ON db.rp DESTINATIONS ALL|ANY 'd1', 'd2', …** — every
+statement the handler can return: any names, either mode, a destination list of any positive length
+(`parseStringList` reads at least one string). The dot is read with a raw `Scan` (no blank around
+it, as printed). The handler looks one token ahead for a further `,` and stays around `k`. -/
+theorem createSubscription_print_parse (fuel : Nat) (s : PState) (name db rp : Str) (mode : Token) (v : Str)
+    (vs : List Str) (k : Str) (hex1 : Expressible name) (hex2 : Expressible db) (hex3 : Expressible rp)
+    (hmode : mode = .ALL ∨ mode = .ANY) (hexv : ∀ x ∈ v :: vs, Expressible x) (hk : NextNot k .COMMA)
+    (hs : s.Before (createSubscriptionText name db rp mode v vs ++ k)) :
+    ∃ s', (runHandler fuel .parseCreateSubscriptionStatement).run s =
+        .ok (.createSubscription name db rp (v :: vs) mode.str, s') ∧ s'.Around k := by
+  have e : createSubscriptionText name db rp mode v vs ++ k =
+      ' ' :: (qi name ++ ' ' :: (Token.ON.str ++ ' ' :: (qi db ++ '.' :: (qi rp ++ ' ' :: (Token.DESTINATIONS.str ++
+        ' ' :: (mode.str ++ ' ' :: (quoteString v ++ (moreStrings vs ++ k)))))))) := by
+    simp only [createSubscriptionText, List.append_assoc, List.cons_append]
+  rw [e] at hs
+  have hmk : mode.isKw = true := by rcases hmode with rfl | rfl <;> decide +kernel
+  obtain ⟨s1, h1, b1⟩ := parseIdent_piece s [' '] (qi name) _ name Gap.blank hs.around
+    (scansAs_ident name _ hex1 (.of_wordEnd (WordEnd.blank _)))
+  obtain ⟨s2, h2, b2⟩ := expectTok_piece s1 [' '] Token.ON.str _ .ON [] ["ON"] Gap.blank b1.around
+    (scansAs_kw .ON _ (by decide +kernel) (WordEnd.blank _))
+  obtain ⟨s3, h3, b3⟩ := parseIdent_piece s2 [' '] (qi db) _ db Gap.blank b2.around
+    (scansAs_ident db _ hex2 (.of_wordEnd (WordEnd.dot _)))
+  obtain ⟨dot, s4, h4, t4, _, b4⟩ := pscan_piece s3 ['.'] _ .DOT [] b3
+    (scansAs_dot _ (quoteIdent_head_not_digit rp _))
+  obtain ⟨s5, h5, b5⟩ := parseIdent_piece s4 [] (qi rp) _ rp Gap.none b4.around
+    (scansAs_ident rp _ hex3 (.of_wordEnd (WordEnd.blank _)))
+  obtain ⟨s6, h6, b6⟩ := expectTok_piece s5 [' '] Token.DESTINATIONS.str _ .DESTINATIONS [] ["DESTINATIONS"] Gap.blank
+    b5.around (scansAs_kw .DESTINATIONS _ (by decide +kernel) (WordEnd.blank _))
+  obtain ⟨m, s7, h7, t7, _, b7⟩ := scanIW_piece s6 [' '] mode.str _ mode [] Gap.blank b6.around
+    (scansAs_kw mode _ hmk (WordEnd.blank _))
+  obtain ⟨s8, h8, b8⟩ := parseStringList_print s7 v vs k hexv hk b7
+  refine ⟨s8, ?_, b8⟩
+  have hm : ¬ (m.tok ≠ .ALL ∧ m.tok ≠ .ANY) := by
+    rw [t7]; rcases hmode with rfl | rfl <;> simp
+  simp only [runHandler, parseCreateSubscription]
+  rw [P.run_bind _ _ s name s1 h1, P.run_bind _ _ s1 () s2 h2, P.run_bind _ _ s2 db s3 h3,
+    P.run_bind _ _ s3 dot s4 h4]
+  simp only [t4, ne_eq, not_true_eq_false, if_false]
+  rw [P.run_bind _ _ s4 rp s5 h5, P.run_bind _ _ s5 () s6 h6, P.run_bind _ _ s6 m s7 h7]
+  simp only [hm, if_false]
+  rw [P.run_bind _ _ s7 (v :: vs) s8 h8, t7]
+  rfl
+
+/-- `CREATE SUBSCRIPTION "sub 0" ON mydb."rp.1" DESTINATIONS ANY 'udp://h1:9090', 'it''s', ''` (three
+destinations, one with an escaped quote, one empty). -/
+example : ∃ s', (runHandler 10 .parseCreateSubscriptionStatement).run
+    (PState.init (createSubscriptionText "sub 0".toList "mydb".toList "rp.1".toList .ANY "udp://h1:9090".toList
+      ["it's".toList, []]) [] []) =
+      .ok (.createSubscription "sub 0".toList "mydb".toList "rp.1".toList ["udp://h1:9090".toList, "it's".toList, []]
+        "ANY".toList, s') := by
+  obtain ⟨s', h, _⟩ := createSubscription_print_parse 10
+    (PState.init (createSubscriptionText "sub 0".toList "mydb".toList "rp.1".toList .ANY "udp://h1:9090".toList
+      ["it's".toList, []]) [] [])
+    "sub 0".toList "mydb".toList "rp.1".toList .ANY "udp://h1:9090".toList ["it's".toList, []] [eofRune]
+    (by decide) (by decide) (by decide) (Or.inr rfl) (by decide) (nextNot_eof _ (by decide))
+    (init_before _ (by decide +kernel))
+  exact ⟨s', h⟩
+
+example : createSubscriptionText "sub 0".toList "mydb".toList "rp.1".toList .ANY "udp://h1:9090".toList ["it's".toList, []] =
+    " \"sub 0\" ON mydb.\"rp.1\" DESTINATIONS ANY 'udp://h1:9090', 'it\\'s', ''".toList := by decide +kernel
+
 end InfluxQL.C02
